@@ -309,7 +309,11 @@ def mgs_case(ctx, inst, suite="K5.MinGenSet"):
             else:
                 wf = witness_feasible(m, inst, expect, bm[1])
                 case["milp_with_witness_fixed"] = wf
-                if wf == "kOptimal":
+                if status != "kInfeasible":
+                    # the loop stopped on a status that is no verdict (e.g. kModelEmpty for the variable-free model of k = 0)
+                    viol(ctx, f"MinGenSet.solve() returned False with status {status} (lowerbound={lb}) although {bm[1]} "
+                              f"(x{inst['unit']}) is a generating multiset of size {bmin}", case, site="MinGenSet.inconclusive_status")
+                elif wf == "kOptimal":
                     viol(ctx, f"MinGenSet.solve() returned False: HiGHS reported the MILP for k={expect} infeasible although it is "
                               f"feasible (kOptimal once gen_set is fixed to {bm[1]} (x{inst['unit']}))", case,
                          site="MinGenSet.solver_false_infeasible")
